@@ -39,7 +39,7 @@ ASSUMPTIONS = [
 ]
 REQUIRED = {"requests": 300, "plugins_ran_checked": 300, "loads_checked": 100, "saves_checked": 100,
             "expected_errors": 30, "components_checked": 100, "multi_sibling_cases": 10, "two_frontend_cases": 50,
-            "multi_partial_cases": 30, "forbid_as_string_cases": 15}
+            "multi_partial_cases": 30, "forbid_as_string_cases": 15, "pre_call_cases": 30}
 UNIT_TIMEOUT = 1200
 ORDER = {"NEVER": 0, "EXPLICIT": 1, "TARGET": 2, "ALWAYS": 3}
 
@@ -238,8 +238,12 @@ def gen_case(seed, idx):
     form = rng.choice(["tuple", "tuple", "list", "str"])
     if form == "str" and len(forbid) != 1:
         form = "tuple"
+    # history on ONE context object: a request with a per-call context option first, then the plain request
+    pre_call = None
+    if modifier == "none" and not forbid and rng.random() < 0.4:
+        pre_call = rng.choice(["allow_incomplete", "fuzzy_for", "forbid_all"])
     return {"spec": spec, "frontends": fes, "targets": targets, "save": save, "modifier": modifier, "forbid": forbid,
-            "forbid_form": form,
+            "forbid_form": form, "pre_call": pre_call,
             "processor": rng.choice(["single_thread", "threaded_mailbox"]), "lazy": rng.random() < 0.5,
             "t0": t0, "t1": t1, "stratum": stratum}
 
@@ -351,13 +355,30 @@ def run_case(case):
                 add("components", f"get_components raised {cexc!r} but no error was expected", cexc)
 
         # ---- the real request
+        the_ctx = ctx()
+        if case.get("pre_call"):
+            # an earlier request on the same context with a per-call option (which must not stick to the context);
+            # by the rules it saves nothing, so the stored subset is still the one the planner was given
+            pre_kw = {"allow_incomplete": dict(allow_incomplete=True), "fuzzy_for": dict(fuzzy_for=(case["spec"]["sources"][0]["name"],)),
+                      "forbid_all": dict(forbid_creation_of=("*",))}[case["pre_call"]]
+            try:
+                with common.quiet():
+                    the_ctx.get_array("0", tg, progress_bar=False, **pre_kw)
+            except Exception:  # noqa: BLE001
+                pass
+            cnt["pre_call_cases"] = 1
+            mid = [listing_types(d) for d in dirs]
+            if mid != before:
+                add("saves", f"the preliminary request with per-call option {case['pre_call']} saved {[sorted(a - b) for a, b in zip(mid, before)]}",
+                    pre_call=case["pre_call"])
+                before = mid
         hp.reset_events()
         cl.reset()
         fsaudit.arm(root)
         exc = None
         try:
             with common.quiet():
-                got = ctx().get_array("0", tg, save=tuple(case["save"]), progress_bar=False, **kw)
+                got = the_ctx.get_array("0", tg, save=tuple(case["save"]), progress_bar=False, **kw)
         except Exception as e:  # noqa: BLE001
             exc = e
         fsev, _ = fsaudit.disarm()
